@@ -355,21 +355,24 @@ def structure_features(cm0, ams, bms):
     f = set()
     if len(cm0) == 1:
         f.add('len1')
-    for a, b in zip(ams, bms):
+    for i, (a, b) in enumerate(zip(ams, bms)):
         if len(a) == 1 or len(b) == 1:
             f.add('list-len1')
         if len(a) == 0 and len(b) > 0:
             f.add('sine-without-cosine')
         if len(a) > 0 and len(b) == 0:
             f.add('cosine-without-sine')
+        if i == 0 and (len(a) > 3 or len(b) > 3):
+            f.add('m=1:N>2')        # the special -2/5 alpha_3 branch
     return f
 
 
 def mismatch_label(features, label):
-    for k in ('sine-without-cosine', 'cosine-without-sine', 'list-len1', 'len1'):
+    """mechanism class of a value mismatch: the most specific structural feature of the coefficient set."""
+    for k in ('sine-without-cosine', 'cosine-without-sine', 'list-len1', 'len1', 'm=1:N>2'):
         if k in features:
             return k
-    return label.split(':')[0]
+    return 'regular'
 
 
 def rt_sets(rng):
@@ -538,7 +541,7 @@ def run_lstsq(ctx, counter):
                             except Exception:
                                 ctx.event('lstsq:raises-on-rank-deficient-input(out-of-domain)')
                             continue
-                        with guard('lstsq', desc, ml):
+                        with guard('lstsq', desc, 'masked' if mask.any() else 'all-finite'):
                             chat = P.lstsq(modes if rep % 2 == 0 else [m for m in modes], data)
                             if not noisy:
                                 ctx.close('lstsq.recovers-synthesis', chat, c, 'C10/lstsq/recovers-synthesis',
@@ -587,14 +590,14 @@ def run_pvr(ctx, counter):
             desc = {'fn': 'Interferogram.pvr', 'n': n, 'mask': ml, 'class': f'pvr:{"e" if n % 2 == 0 else "o"}:{ml}'}
             ctx.case(desc)
             before = dict(CTX.monitors)
-            with guard('Interferogram.pvr', desc, ml):
+            with guard('Interferogram.pvr', desc, 'masked'):
                 i = Interferogram(data.copy(), dx=2 / n)
                 v = i.pvr()
                 seen = (CTX.monitors.get('lstsq.solution', 0) + CTX.skipped.get('lstsq:ill-conditioned(cond>1e6)', 0)
                         + CTX.skipped.get('lstsq:rank-deficient-on-valid-samples', 0)) > before.get('lstsq.solution', 0)
                 ctx.require('pvr.consumer', np.isfinite(v) and seen, 'C10/pvr/consumer-not-monitored-or-nonfinite',
                             'Interferogram.pvr returned a non-finite value or its lstsq call was not seen', desc, value=float(v))
-            with guard('fit_plane', desc, ml):
+            with guard('fit_plane', desc, 'masked' if ml != 'none' else 'all-finite'):
                 fit_plane(x, y, data)
 
 
